@@ -23,9 +23,13 @@ pub fn def() -> PropDef {
 }
 
 pub fn grow_cfg(second: u8) -> DbCfg {
+	grow_cfg_page(second, 0x7a31)
+}
+
+pub fn grow_cfg_page(second: u8, page: u16) -> DbCfg {
 	let mut c = ColCfg::hash();
 	c.uniform = true;
-	c.keyset = KeySet::Grow { page: 0x7a31 };
+	c.keyset = KeySet::Grow { page };
 	let mut cols = vec![c];
 	match second {
 		1 => cols.push(ColCfg::hash()),
@@ -36,8 +40,9 @@ pub fn grow_cfg(second: u8) -> DbCfg {
 }
 
 pub fn scenario(max_blocks: usize, max_id: u16) -> impl Strategy<Value = Scenario> {
-	(0u8..3).prop_flat_map(move |second| {
-		let cfg = grow_cfg(second);
+	(0u8..3, prop_oneof![3 => Just(0x7a31u16), 1 => Just(0xffffu16), 1 => Just(0u16)]).prop_flat_map(move |(second, page)| {
+		// also the first and the last page of the index
+		let cfg = grow_cfg_page(second, page);
 		let ncols = cfg.cols.len() as u8;
 		let bulk = (0u16..max_id, 20u16..90, small_vspec()).prop_map(move |(start, n, v)| {
 			vec![Op::Commit((0..n).map(|i| Item { col: 0, ch: Change::Set((start + i) % max_id, VSpec { seed: v.seed.wrapping_add(i), ..v.clone() }) }).collect())]
